@@ -67,9 +67,15 @@ def curAfterAdd (s : TW) (r : Row) (now : Int) : Int :=
   if lateNow s r now then curInit s r
   else if r.ts < curInit s r then alignDown r.ts s.size else curInit s r
 
-/-- the open triggered window a late row falls into -/
-def findFired (s : TW) (r : Row) : Option Fired :=
-  s.fired.find? (fun f => inSlot s.size f.start r)
+/-- the window's allowance has not expired by the watermark `cur` -/
+def stillOpen (cur : Option Int) (f : Fired) : Bool :=
+  match cur with
+  | none => true
+  | some c => decide (c < f.close)
+
+/-- the triggered window, still inside its allowance by the current watermark, a late row falls into -/
+def findFired (s : TW) (r : Row) (now : Int) : Option Fired :=
+  s.fired.find? (fun f => inSlot s.size f.start r && stillOpen (wmAfter s r now).cur f)
 
 /-- what happens to the appended row -/
 inductive Fate where
@@ -82,7 +88,7 @@ def fate (s : TW) (r : Row) (now : Int) : Fate :=
   if lateNow s r now then
     if inSlot s.size (curInit s r) r then .keep
     else if 0 < s.lateness then
-      match findFired s r with
+      match findFired s r now with
       | some f => .lateUpdate f
       | none => .drop
     else .drop
